@@ -1,6 +1,7 @@
 package props
 
 import (
+	"encoding/json"
 	"fmt"
 	"sort"
 	"strings"
@@ -17,7 +18,7 @@ func init() {
 			"Oracle: an explicit depth-counting tree walk written in the harness (object members form an unordered group). Non-trivial: the document is a container; distinct by (tree, path)",
 		Run:          runC15,
 		Replay:       replayC15,
-		MinExercised: map[string]int64{"anykey": 500, "anyarray": 500, "anylevel": 20000, "anylevel.last": 2000, "equiv.unbounded": 500, "equiv.kfold": 2000, "strict.skip": 5000, "exists": 5000},
+		MinExercised: map[string]int64{"anykey": 500, "anyarray": 500, "anylevel": 20000, "anylevel.last": 2000, "equiv.unbounded": 500, "anylevel.chain": 5000, "equiv.kfold": 2000, "strict.skip": 5000, "exists": 5000},
 		Assumptions:  []string{"object member order is open: results are compared as sequences in which the members of one object may appear in any order (all orders enumerated for objects of <= 3 members)"},
 	})
 }
@@ -234,12 +235,12 @@ func checkAny(c *h.Ctx, docText string, doc any, listings [][]wnode, spec anySpe
 		c.Count("gen.unparsable", 1)
 		return
 	}
-	o := h.Call("query", p, h.Decode(docText, false), h.Opts{})
+	o := h.Call("query", p, h.Decode(docText, c15UseNum), h.Opts{})
 	c.Eval(1)
 	if isContainer(doc) {
 		c.Distinct(docText, ptxt)
 	}
-	cs := h.Case{Kind: "any", Path: ptxt, Doc: docText}
+	cs := h.Case{Kind: "any", Path: ptxt, Doc: docText, UseNum: c15UseNum}
 	clause := "anylevel"
 	if spec.leaves {
 		clause = "anylevel.last"
@@ -258,7 +259,7 @@ func checkAny(c *h.Ctx, docText string, doc any, listings [][]wnode, spec anySpe
 	got := canonItems(o.Items)
 	// the result-less traversal (Exists) agrees with the collecting one
 	if suffix == "" {
-		oe := h.Call("exists", p, h.Decode(docText, false), h.Opts{})
+		oe := h.Call("exists", p, h.Decode(docText, c15UseNum), h.Opts{})
 		c.Eval(1)
 		if oe.Class != h.OK || oe.Bool != (len(o.Items) > 0) {
 			c.Violate("exists", h.F("mode", modeName(lax), "form", "bare"), fmt.Sprintf("Query(%s) on %s returns %d items but Exists = %s", ptxt, docText, len(o.Items), oe.Summary()), cs)
@@ -271,8 +272,8 @@ func checkAny(c *h.Ctx, docText string, doc any, listings [][]wnode, spec anySpe
 			if sc, ok := scalarLit(lastItem); ok {
 				ftxt := ptxt + " ? (@ == " + sc + ")"
 				if pf := cachedPath(ftxt); pf != nil {
-					of := h.Call("exists", pf, h.Decode(docText, false), h.Opts{})
-					op := h.Call("query", cachedPath(`"item" ? (exists($`+spec.text+" ? (@ == "+sc+")))"), h.Decode(docText, false), h.Opts{})
+					of := h.Call("exists", pf, h.Decode(docText, c15UseNum), h.Opts{})
+					op := h.Call("query", cachedPath(`"item" ? (exists($`+spec.text+" ? (@ == "+sc+")))"), h.Decode(docText, c15UseNum), h.Opts{})
 					c.Eval(2)
 					if of.Class != h.OK || !of.Bool || op.Class != h.OK || len(op.Items) != 1 {
 						c.Violate("exists", h.F("mode", modeName(lax), "form", "filter"), fmt.Sprintf("%s selects %s on %s, but Exists(%s) = %s and \"item\" ? (exists($%s ? (@ == %s))) = %s", ptxt, sc, docText, ftxt, of.Summary(), spec.text, sc, op.Summary()), cs)
@@ -326,7 +327,7 @@ func checkAny(c *h.Ctx, docText string, doc any, listings [][]wnode, spec anySpe
 }
 
 func checkTree(c *h.Ctx, docText string, specs []anySpec, full bool) {
-	doc := h.Decode(docText, false)
+	doc := h.Decode(docText, c15UseNum)
 	listings := walkOrders(doc, 0, 300)
 	for _, lax := range []bool{true, false} {
 		// .* and [*]
@@ -336,13 +337,13 @@ func checkTree(c *h.Ctx, docText string, specs []anySpec, full bool) {
 				ptxt = "strict " + ptxt
 			}
 			p := cachedPath(ptxt)
-			o := h.Call("query", p, h.Decode(docText, false), h.Opts{})
+			o := h.Call("query", p, h.Decode(docText, c15UseNum), h.Opts{})
 			c.Eval(1)
 			clause := "anykey"
 			if acc == "[*]" {
 				clause = "anyarray"
 			}
-			cs := h.Case{Kind: "wild", Path: ptxt, Doc: docText}
+			cs := h.Case{Kind: "wild", Path: ptxt, Doc: docText, UseNum: c15UseNum}
 			var wants []string
 			wantErr := false
 			switch d := doc.(type) {
@@ -430,13 +431,13 @@ func checkTree(c *h.Ctx, docText string, specs []anySpec, full bool) {
 				if pa == nil || pb == nil {
 					return
 				}
-				oa := h.Call("query", pa, h.Decode(docText, false), h.Opts{})
-				ob := h.Call("query", pb, h.Decode(docText, false), h.Opts{})
+				oa := h.Call("query", pa, h.Decode(docText, c15UseNum), h.Opts{})
+				ob := h.Call("query", pb, h.Decode(docText, c15UseNum), h.Opts{})
 				c.Eval(2)
 				if oa.Class != ob.Class || (oa.Class == h.OK && h.CanonBag(oa.Items) != h.CanonBag(ob.Items)) {
 					// k-fold any-child on scalars errs in strict mode while .**{k} skips: compare only when both succeed
 					if oa.Class == h.OK && ob.Class == h.OK {
-						c.Violate(clause, h.F("mode", modeName(lax)), fmt.Sprintf("%s%s = %s but %s%s = %s on %s", mode, a, oa.Summary(), mode, b, ob.Summary(), docText), h.Case{Kind: "equiv", Path: mode + a, Doc: docText, Extra: map[string]string{"other": mode + b}})
+						c.Violate(clause, h.F("mode", modeName(lax)), fmt.Sprintf("%s%s = %s but %s%s = %s on %s", mode, a, oa.Summary(), mode, b, ob.Summary(), docText), h.Case{Kind: "equiv", Path: mode + a, Doc: docText, UseNum: c15UseNum, Extra: map[string]string{"other": mode + b}})
 					} else {
 						c.Skip(clause, "one-side-errs")
 					}
@@ -457,7 +458,68 @@ func checkTree(c *h.Ctx, docText string, specs []anySpec, full bool) {
 	}
 }
 
+// c15UseNum: numbers of the document decoded as json.Number instead of float64.
+var c15UseNum bool
+
+// checkAnyChain: one recursive descent inside another. $ S1 S2 selects, as a
+// multiset, what S2 selects from each node S1 selects (two executions of the
+// real code per node; order is left out because members expand in any order).
+func checkAnyChain(c *h.Ctx, docText string, s1, s2 string, lax bool) {
+	mode := ""
+	if !lax {
+		mode = "strict "
+	}
+	pf, p1, p2 := cachedPath(mode+"$"+s1+s2), cachedPath(mode+"$"+s1), cachedPath(mode+"$"+s2)
+	if pf == nil || p1 == nil || p2 == nil {
+		c.Count("gen.unparsable", 1)
+		return
+	}
+	doc := h.Decode(docText, c15UseNum)
+	of := h.Call("query", pf, doc, h.Opts{})
+	o1 := h.Call("query", p1, doc, h.Opts{})
+	c.Eval(2)
+	cs := h.Case{Kind: "chain", Path: mode + "$" + s1 + s2, Doc: docText, UseNum: c15UseNum, Extra: map[string]string{"s1": s1, "s2": s2}}
+	if of.Class != h.OK || o1.Class != h.OK {
+		if of.Class == h.Panic || o1.Class == h.Panic {
+			c.Skip("anylevel.chain", "panic-is-C05")
+			return
+		}
+		if o1.Class == h.Soft && of.Class == h.Soft {
+			// a strict wildcard on the wrong kind of item fails with or without a continuation
+			c.Held("anylevel.chain")
+			return
+		}
+		c.Violate("anylevel.chain", h.F("mode", modeName(lax), "kind", "error"), fmt.Sprintf("Query(%s) = %s, Query(%s$%s) = %s on %s; recursive descent never fails", cs.Path, of.Summary(), mode, s1, o1.Summary(), docText), cs)
+		return
+	}
+	var want []any
+	for _, x := range o1.Items {
+		o2 := h.Call("query", p2, x, h.Opts{})
+		c.Eval(1)
+		if o2.Class != h.OK {
+			c.Skip("anylevel.chain", "inner-fails")
+			return
+		}
+		want = append(want, o2.Items...)
+	}
+	if len(o1.Items) > 1 {
+		c.Distinct("chain", docText, cs.Path)
+	}
+	if h.CanonBag(of.Items) != h.CanonBag(want) {
+		c.Violate("anylevel.chain", h.F("mode", modeName(lax)), fmt.Sprintf("Query(%s) on %s = %s (%d items) but %s applied to each of the %d nodes of %s gives %d items %s", cs.Path, docText, h.CanonBag(of.Items), len(of.Items), s2, len(o1.Items), s1, len(want), h.CanonBag(want)), cs)
+	} else {
+		c.Held("anylevel.chain")
+	}
+}
+
+var c15ChainSpecs = []string{".**", ".**{1}", ".**{2}", ".**{3}", ".**{1 to 2}", ".**{2 to 3}", ".**{2 to last}", ".**{last}", ".*", "[*]", ".**{0 to 1}"}
+
 func replayC15(c *h.Ctx, cs h.Case) {
+	c15UseNum = cs.UseNum
+	if cs.Kind == "chain" {
+		checkAnyChain(c, cs.Doc, cs.Extra["s1"], cs.Extra["s2"], !strings.HasPrefix(cs.Path, "strict "))
+		return
+	}
 	checkTree(c, cs.Doc, anySpecs(), true)
 }
 
@@ -468,7 +530,12 @@ func runC15(c *h.Ctx) {
 	c.Count("trees.enumerated", int64(len(trees)))
 	for i, t := range trees {
 		if c.Mine(i) {
+			c15UseNum = false
 			checkTree(c, t, specs, true)
+			if strings.Contains(t, "1") && i%3 == 0 {
+				c15UseNum = true // the same tree with its numbers as json.Number
+				checkTree(c, t, specs, true)
+			}
 		}
 	}
 	c.SetExhaustive(fmt.Sprintf("all JSON trees of <= %d nodes over leaves {1,\"s\",null,[],{}} and keys a,b x %d level-bound forms x suffixes x modes", maxNodes, len(specs)))
@@ -477,7 +544,25 @@ func runC15(c *h.Ctx) {
 	dc := gen.DocCfg{Depth: 5, MaxKids: 3, Keys: []string{"a", "b", "c"}, Strs: []string{"s", ""}, Nums: []string{"1", "0", "2.5"}}
 	n := c.PerShard(c.N(6000, 300000))
 	for i := 0; i < n; i++ {
+		c15UseNum = i%2 == 1
 		checkTree(c, gen.Doc(r, dc), specs, true)
+	}
+	// one recursive descent inside another, on deep trees whose objects have several members
+	deep := gen.DocCfg{Depth: 6, MaxKids: 3, Keys: []string{"a", "b", "c", "d"}, Strs: []string{"s"}, Nums: []string{"1", "2"}}
+	nc := c.PerShard(c.N(60000, 1500000))
+	for i := 0; i < nc; i++ {
+		c15UseNum = i%4 == 3
+		d := gen.Doc(r, deep)
+		if len(d) < 24 {
+			continue
+		}
+		s1 := c15ChainSpecs[r.IntN(len(c15ChainSpecs))]
+		s2 := c15ChainSpecs[r.IntN(8)]
+		checkAnyChain(c, d, s1, s2, r.IntN(3) > 0)
+		if i%5 == 0 {
+			// ... and three deep
+			checkAnyChain(c, d, s1+c15ChainSpecs[r.IntN(8)], s2, true)
+		}
 	}
 }
 
@@ -486,6 +571,8 @@ func scalarLit(v any) (string, bool) {
 	switch x := v.(type) {
 	case string:
 		return gQuote(x), true
+	case json.Number:
+		return x.String(), true
 	case float64:
 		if x == float64(int64(x)) {
 			return fmt.Sprint(int64(x)), true
